@@ -113,7 +113,7 @@ def main():
                 (r['detail'][:300].replace('\n', ' ') if r['status'] != 'done' else '')), flush=True)
 
     known = load_known()
-    undecided, violations, known_hits = [], [], []
+    undecided, violations, known_hits, unexplored = [], [], [], []
     proved_obl = proved_dis = bounded_obl = bounded_dis = 0
     samples, group_ev, trusted, assumptions, fns = [], [], set(), set(), set()
     for g in sel:
@@ -140,7 +140,14 @@ def main():
         for t in g.get('assumptions', []):
             assumptions.add(t)
         if r['status'] != 'done':
-            undecided.append('%s: %s %s' % (g['name'], r['status'], r['detail'][:500]))
+            resource = r['status'] == 'timeout' or (r['status'] == 'solver_error' and 'memory' in r['detail']) or \
+                       (r['status'] == 'void' and 'canary run gave no result' in r['detail'])
+            if resource and g.get('tier', 'quick') == 'thorough':
+                # a thorough-only group that ran out of time or memory explored nothing: reported, not a verdict on the property
+                unexplored.append('%s: %s (%s)' % (g['name'], r['status'], r['detail'][:120].replace('\n', ' ')))
+                ge['status'] = 'unexplored: ' + r['status']
+            else:
+                undecided.append('%s: %s %s' % (g['name'], r['status'], r['detail'][:500]))
             continue
         want = g.get('expect_canaries', 1)
         fired = sum(1 for c in r['canaries'] if c['status'] == 'FAILURE')
@@ -254,6 +261,7 @@ def main():
             'bounded_note': 'groups of class B are bounded stand-ins: counted here only, never under obligations/discharged',
             'samples': samples,
             'undecided': undecided,
+            'unexplored_thorough_groups': unexplored,
             'known_findings_matched': known_hits,
             'explanation': meta.get('explanation') or ('contract-based deductive verification with CBMC: %d obligations in unbounded/finite-complete groups (classes P/F), '
                             '%d in bounded stand-in groups (class B, never counted as proved)' % (proved_obl, bounded_obl)),
@@ -267,6 +275,8 @@ def main():
         json.dump(ev, open(os.path.join(HERE, 'evidence', prop + '.json'), 'w'), indent=1)
     for k in known_hits:
         print('KNOWN-FINDING: %s' % k)
+    for u in unexplored:
+        print('UNEXPLORED (thorough-only group out of time/memory) %s' % u)
     print('[%s] tier=%s groups=%d proved %d/%d bounded %d/%d wall=%.0fs' % (prop, a.tier, len(sel), proved_dis, proved_obl, bounded_dis, bounded_obl, wall))
     if vio_lines:
         for l in vio_lines:
